@@ -1,0 +1,15 @@
+//go:build verif
+
+package gortsplib
+
+import (
+	"github.com/bluenviron/gortsplib/v5/internal/asyncprocessor"
+)
+
+// This file is compiled only with the "verif" build tag. It gives the external
+// verification harness (/verif/harness) access to unexported or internal
+// pieces of the library; it adds no behaviour.
+
+// VerifAsyncProcessor is the outbound write queue used by client, server
+// sessions and multicast writers.
+type VerifAsyncProcessor = asyncprocessor.Processor
